@@ -39,6 +39,8 @@ type Report struct {
 	ModelDiffs  int               `json:"model_mismatches"`
 	SpecReqs    int64             `json:"spec_requests"`
 	Notes       []string          `json:"notes,omitempty"`
+	OnlyCase    json.RawMessage   `json:"only_case,omitempty"`
+	OnlyObs     []string          `json:"only_obs,omitempty"`
 	WallS       float64           `json:"wall_s"`
 
 	mu       sync.Mutex
@@ -79,6 +81,11 @@ func (r *Report) Note(s string) {
 // its input: streams produced by fastgo's own writer differ between acceleration levels
 // (match choices), and observables are only comparable across levels for equal inputs.
 func (r *Report) DigestR(id string, o *RObs, parts ...[]byte) {
+	if onlyID != "" {
+		r.mu.Lock()
+		r.OnlyObs = append(r.OnlyObs, fmt.Sprintf("bytes=%d [%s...] err=%s panic=%q hang=%v srcerr=%v after=%v ctor=%q left=%d", len(o.Bytes), hexs(o.Bytes[:minInt(len(o.Bytes), 48)]), o.Err, o.Panic, o.Hang, o.ErrIsSrc, o.After, o.CtorErr, len(o.Left)))
+		r.mu.Unlock()
+	}
 	if len(parts) == 0 {
 		parts = o.digestParts()
 	}
